@@ -12,6 +12,10 @@ CHECK = {
     "level_note": 'reads = AllStreams, Stream, Data, Packets, three searches; a background job that uses a closed index file is noticed through the log of the service, which is captured per scenario and searched for "file already closed" / "bad file descriptor"',
     "assumptions": [],
     "extra_builds": [{"pkg": "internal/verif/convbin", "out": "convbin"}],
+    "rewrites": [
+        # reassembly snapshots after 4 packets instead of 100000: the scenarios have a few dozen packets
+        {"file": "internal/index/builder/builder.go", "pattern": r">= 100_000\b", "replacement": ">= 4"},
+    ],
     "campaigns": [
         {"test": "TestVerifC13", "checks": {"quick": 800, "thorough": 40000}, "steps": 40, "shrinktime": "90s", "death_is_violation": True,
          "timeout": {"quick": 600, "thorough": 5400}},
